@@ -839,6 +839,9 @@ func (g *pgen) info() *PInfo {
 func (g *pgen) tagCols(allowAbsent bool) ([]int64, []int64) {
 	r := g.r
 	n := r.Intn(4)
+	if r.Chance(8) {
+		n = 9 + r.Intn(6) // a heavily tagged element next to lightly tagged ones (buffers taken over from it have room to spare)
+	}
 	if n == 0 && allowAbsent && r.Bool() {
 		return nil, nil
 	}
@@ -889,7 +892,11 @@ func (g *pgen) dense(maxN int) *PDense {
 	if r.Chance(60) {
 		d.KV = []int64{}
 		for i := 0; i < n; i++ {
-			for t := r.Intn(3); t > 0; t-- {
+			nt := r.Intn(3)
+			if r.Chance(8) {
+				nt = 9 + r.Intn(6)
+			}
+			for t := nt; t > 0; t-- {
 				k := g.str()
 				for k == "" {
 					k = g.str() // string 0 is the delimiter: a tag key is never the empty string
